@@ -215,6 +215,15 @@ class SymEval(object):
         for i in g.ifs:
           conds.append(unparse(i))
       return ('comp', self.ev(n.elt, e2, fn), tuple(conds))
+    if isinstance(n, ast.DictComp):
+      e2 = overlay(env)
+      conds = []
+      for g in n.generators:
+        it = self.ev(g.iter, e2, fn)
+        self.bind(g.target, ('elem', it), e2)
+        for i in g.ifs:
+          conds.append(unparse(i))
+      return ('dictcomp', self.ev(n.key, e2, fn), self.ev(n.value, e2, fn), tuple(conds))
     if isinstance(n, ast.Starred):
       return ('star', self.ev(n.value, env, fn))
     return ('opaque', unparse(n))
